@@ -66,4 +66,19 @@ TEXTS = {
         "note": "Trusted: Lean kernel; the model of key_from_selector for ASCII; non-ASCII word characters are outside the model.",
         "technique": "Lean 4 theorems (case analysis on the partition; lookup characterisation) + correspondence check + partition oracle",
     },
+    "C08": {
+        "level": "Lean 4 proofs about the field-by-field wire mapping: a rule whose modifier travels in the redirect/csp slot survives unchanged; reload is the identity on a blocker without removeparam rules (so all network and CSP answers coincide under any tag set); the cosmetic bins survive up to the permission of script injections. The full statement fails on the pinned tree in exactly two ways (F10 removeparam list, F11 script permission), recorded as known findings with their own class. Correspondence: real serialize -> deserialize into a differently configured engine, full query battery.",
+        "note": "Trusted: Lean kernel; rmp-serde/serde (decode (encode w) = w); model faithfulness validated by the round-trip run.",
+        "technique": "Lean 4 theorems (wire mapping round trip; _partial for representable rule lists) + correspondence check",
+    },
+    "C09": {
+        "level": "Lean 4 proofs that the ordered view under which hash containers are written does not depend on iteration order (any permutation, distinct keys), that buckets built by sorted insertion are strictly sorted so their order is determined by their content, and a kernel-checked decision over the field list re-extracted from the source that every HashMap/HashSet field of the wire structs is serialized through a stabilize_* ordered view. Byte-for-byte comparison across engines, fresh processes and reload on generated lists.",
+        "note": "Trusted: Lean kernel; extract_tables.py; rmp-serde is a function of the serde event stream.",
+        "technique": "Lean 4 theorems (uniqueness of sorted permutations; decide over the extracted field table) + byte-level oracle across processes",
+    },
+    "C10": {
+        "level": "PARTIAL. Lean 4 proofs of the header dispatch (exactly `magic ++ 0 :: rest` reaches the decoder; magic-only, short, wrong-version and gzip inputs are rejected) and of atomicity (an error return leaves the engine state untouched; a success keeps the caller's tags). Decoder totality, bounded allocation and query totality on corrupt data are runtime behaviour of rmp-serde and the matchers: they are covered by fault enumeration in a child process under an address-space ceiling (every prefix, bit flip, structural marker substitution, random corruption). A fourth panic site found this way was repaired (fix: 70f9f27).",
+        "note": "Trusted: Lean kernel; the child-process harness; what the model cannot exhibit: allocator behaviour, aborts, hangs (observed only through the ceiling / time limit).",
+        "technique": "Lean 4 theorems (dispatch characterisation, atomicity) + fault enumeration (labelled partial)",
+    },
 }
